@@ -110,6 +110,19 @@ func init() {
 					cases = append(cases, c09Case("variable-reuse-after-infix", []string{a, b}, map[string][2]string{"fee": {"monetary", "mon:USD"}}))
 				}
 			}
+			// a variable sent by a statement funded by several senders, then used again
+			for _, first := range []string{"send $fee (\n  source = { @a @b }\n  destination = @d\n)", "send $fee (\n  source = { 1/2 from @a 1/2 from @b }\n  destination = @pool\n)",
+				"send [USD *] (\n  source = { @a @b }\n  destination = { max $fee to @f remaining to { 10% to @f remaining to @m } }\n)"} {
+				for _, b := range append(reuse, "send $fee (\n  source = @world\n  destination = { 1/3 to @x 1/3 to @y remaining to @z }\n)", "send [USD *] (\n  source = @b\n  destination = { max $fee to @f2 remaining to @m2 }\n)") {
+					cases = append(cases, c09Case("variable-reuse", []string{first, b}, map[string][2]string{"fee": {"monetary", "mon:USD"}}))
+				}
+			}
+			// debit; a statement on an account / asset the store does not know; read the debited account again
+			for _, mid := range []string{"send [EUR *] (\n  source = @c\n  destination = @d\n)", "save [USD 5] from @p", "save [EUR *] from @a"} {
+				ex := map[string][2]string{"_omit": {"", "c,p"}, "_omitasset": {"", "a/EUR"}}
+				cases = append(cases, c09Case("unknown-account-between-debits", []string{sendFixed("USD", "@a", "@b"), mid, sendFixed("USD", "@a", "@e")}, ex))
+				cases = append(cases, c09Case("unknown-account-between-debits", []string{"save %N from @a", mid, sendAll("USD", "@a", "@e")}, ex))
+			}
 			cases = append(cases, c09Case("variable-reuse-after-infix", []string{`set_tx_meta("a", $n + 1)`, `set_tx_meta("b", $n)`, `set_tx_meta("c", $n - $n)`}, map[string][2]string{"n": {"number", "num"}}))
 			n := len(stm)
 			for i := 0; i < n; i++ {
